@@ -112,7 +112,7 @@ def gen_ctor_cases(ctx):
             enc += [1] + ename(rng.choice(ccy + ["chf", "FOUR"]))
         else:
             enc += [0]
-        enc += [rng.choice([0, 1, 2])]
+        enc += [rng.choice([0, 1, 2]), 0]
         add("FXRates::try_new (malformed)", "fxrates", 15, enc)
     # Cal::new week masks: every value 0..8 alone and in pairs
     for v in range(0, 9):
@@ -221,6 +221,8 @@ def gen_load_cases(ctx, nobj):
                 ctx.count("load: double mutation")
             else:
                 ctx.count("load: single mutation")
+            for part in lab.split(" + "):
+                ctx.count("load mutation kind: " + " ".join(part.split()[:2]))
             cases.append((m, lab))
     return cases
 
